@@ -273,74 +273,81 @@ func (e *cfgEnv) renderJSON(r cfgRec, workDir string) []byte {
 }
 
 // renderCaddyfile renders the same configuration in Caddyfile syntax.
-func (e *cfgEnv) renderCaddyfile(r cfgRec, workDir string) string {
-	var b strings.Builder
-	b.WriteString("revocation {\n")
+// renderCaddyfile writes the settings as a Caddyfile block. perm 0 is the order of the documentation; any other value shuffles
+// the directives of every block (the order of lines is not an option: every order of the same directives is the same
+// configuration).
+func (e *cfgEnv) renderCaddyfile(r cfgRec, workDir string, perm int64) string {
+	shuffle := func(lines []string, salt int64) string {
+		if perm != 0 {
+			rand.New(rand.NewSource(perm*31+salt)).Shuffle(len(lines), func(i, j int) { lines[i], lines[j] = lines[j], lines[i] })
+		}
+		return strings.Join(lines, "")
+	}
+	var top []string
 	if r.Mode != "absent" {
-		fmt.Fprintf(&b, "  mode %s\n", val("mode", r.Mode))
+		top = append(top, fmt.Sprintf("  mode %s\n", val("mode", r.Mode)))
 	}
 	if r.Unknown == "top" {
-		b.WriteString("  mod crl_only\n")
+		top = append(top, "  mod crl_only\n")
 	}
 	if r.CrlCfg {
-		b.WriteString("  crl_config {\n")
+		var in []string
 		if r.WorkDir {
-			fmt.Fprintf(&b, "    work_dir %q\n", workDir)
+			in = append(in, fmt.Sprintf("    work_dir %q\n", workDir))
 		}
 		if r.Storage != "absent" {
-			fmt.Fprintf(&b, "    storage_type %s\n", val("storage", r.Storage))
+			in = append(in, fmt.Sprintf("    storage_type %s\n", val("storage", r.Storage)))
 		}
 		if r.Interval != "absent" {
-			fmt.Fprintf(&b, "    update_interval %s\n", val("interval", r.Interval))
+			in = append(in, fmt.Sprintf("    update_interval %s\n", val("interval", r.Interval)))
 		}
 		if r.Sig != "absent" {
-			fmt.Fprintf(&b, "    signature_validation_mode %s\n", val("sig", r.Sig))
+			in = append(in, fmt.Sprintf("    signature_validation_mode %s\n", val("sig", r.Sig)))
 		}
 		if r.Urls == "one" {
-			fmt.Fprintf(&b, "    crl_url %q\n", e.org.URL+"/cfg.crl")
+			in = append(in, fmt.Sprintf("    crl_url %q\n", e.org.URL+"/cfg.crl"))
 		}
 		if r.Files == "one" {
-			fmt.Fprintf(&b, "    crl_file %q\n", e.crlFile)
+			in = append(in, fmt.Sprintf("    crl_file %q\n", e.crlFile))
 		}
 		if r.Trusted == "one" {
-			fmt.Fprintf(&b, "    trusted_signature_cert_file %q\n", e.trustFile)
+			in = append(in, fmt.Sprintf("    trusted_signature_cert_file %q\n", e.trustFile))
 		}
 		if r.Unknown == "crl" {
-			b.WriteString("    storage_typ memory\n")
+			in = append(in, "    storage_typ memory\n")
 		}
 		if r.CdpCfg {
-			b.WriteString("    cdp_config {\n")
+			var cdp []string
 			if r.Fetch != "absent" {
-				fmt.Fprintf(&b, "      crl_fetch_mode %s\n", val("fetch", r.Fetch))
+				cdp = append(cdp, fmt.Sprintf("      crl_fetch_mode %s\n", val("fetch", r.Fetch)))
 			}
 			if r.CdpStrict != "absent" {
-				fmt.Fprintf(&b, "      crl_cdp_strict %s\n", val("cdpstrict", r.CdpStrict))
+				cdp = append(cdp, fmt.Sprintf("      crl_cdp_strict %s\n", val("cdpstrict", r.CdpStrict)))
 			}
 			if r.Unknown == "cdp" {
-				b.WriteString("      crl_cdp_stict true\n")
+				cdp = append(cdp, "      crl_cdp_stict true\n")
 			}
-			b.WriteString("    }\n")
+			in = append(in, "    cdp_config {\n"+shuffle(cdp, 3)+"    }\n")
 		}
-		b.WriteString("  }\n")
+		top = append(top, "  crl_config {\n"+shuffle(in, 1)+"  }\n")
 	}
 	if r.OcspCfg {
-		b.WriteString("  ocsp_config {\n")
+		var in []string
 		if r.Cache != "absent" {
-			fmt.Fprintf(&b, "    default_cache_duration %s\n", val("cache", r.Cache))
+			in = append(in, fmt.Sprintf("    default_cache_duration %s\n", val("cache", r.Cache)))
 		}
 		if r.AiaStrict != "absent" {
-			fmt.Fprintf(&b, "    ocsp_aia_strict %s\n", val("aiastrict", r.AiaStrict))
+			in = append(in, fmt.Sprintf("    ocsp_aia_strict %s\n", val("aiastrict", r.AiaStrict)))
 		}
 		if r.Responder == "one" {
-			fmt.Fprintf(&b, "    trusted_responder_cert_file %q\n", e.respFile)
+			in = append(in, fmt.Sprintf("    trusted_responder_cert_file %q\n", e.respFile))
 		}
 		if r.Unknown == "ocsp" {
-			b.WriteString("    ocsp_aia_stict true\n")
+			in = append(in, "    ocsp_aia_stict true\n")
 		}
-		b.WriteString("  }\n")
+		top = append(top, "  ocsp_config {\n"+shuffle(in, 2)+"  }\n")
 	}
-	b.WriteString("}\n")
-	return b.String()
+	return "revocation {\n" + shuffle(top, 0) + "}\n"
 }
 
 // ---- loading with the real code -------------------------------------------------------------------------
@@ -578,20 +585,24 @@ func C19(c *vk.Ctx) {
 		r := row.Cfg
 		jw, cw := env.workDir(), env.workDir()
 		jsonText := env.renderJSON(r, jw)
-		cfText := env.renderCaddyfile(r, cw)
+		cfText := env.renderCaddyfile(r, cw, 0)
 		lj := loadJSON(jsonText)
 		lc := loadCaddyfile(cfText)
+		// the same directives in two other orders (the order of lines is not an option)
+		pw1, pw2 := env.workDir(), env.workDir()
+		cfP1, cfP2 := env.renderCaddyfile(r, pw1, int64(i)*2+1), env.renderCaddyfile(r, pw2, int64(i)*2+2)
+		lp1, lp2 := loadCaddyfile(cfP1), loadCaddyfile(cfP2)
 		n++
 		c.Eval(r.TLA())
 		rep := map[string]any{"cfg": r, "expected": row.Effective, "provision_expected": row.Provision, "json": string(jsonText), "caddyfile": cfText,
-			"json_result": lj, "caddyfile_result": lc}
+			"json_result": lj, "caddyfile_result": lc, "caddyfile_reordered": []string{cfP1, cfP2}, "caddyfile_reordered_result": []loaded{lp1, lp2}}
 		if i%97 == 0 {
 			c.Sample(map[string]any{"cfg": r, "expected": row.Effective, "caddyfile": cfText})
 		}
 		for _, s := range []struct {
 			name string
 			l    loaded
-		}{{"json", lj}, {"caddyfile", lc}} {
+		}{{"json", lj}, {"caddyfile", lc}, {"caddyfile-reordered", lp1}, {"caddyfile-reordered", lp2}} {
 			switch {
 			case row.Effective.Reject && s.l.Err == "":
 				c.Violation(fmt.Sprintf("%s:accepts-what-must-be-rejected:%s", s.name, rejectReason(r)),
@@ -608,6 +619,14 @@ func C19(c *vk.Ctx) {
 		}
 		if lj.Err == "" && lc.Err == "" && !reflect.DeepEqual(lj.Eff, lc.Eff) {
 			c.Violation("syntaxes-disagree:"+effDiff(lj.Eff, lc.Eff), "the JSON and Caddyfile forms of the same settings yield different validators", rep)
+		}
+		for _, lp := range []loaded{lp1, lp2} {
+			if (lp.Err == "") != (lc.Err == "") {
+				c.Violation("directive-order-decides-acceptance", fmt.Sprintf("the same Caddyfile directives in another order are %s (%q) while the documented order is %s (%q)",
+					map[bool]string{true: "accepted", false: "rejected"}[lp.Err == ""], lp.Err, map[bool]string{true: "accepted", false: "rejected"}[lc.Err == ""], lc.Err), rep)
+			} else if lp.Err == "" && !reflect.DeepEqual(lp.Eff, lc.Eff) {
+				c.Violation("directive-order-decides-configuration:"+effDiff(lc.Eff, lp.Eff), "the same Caddyfile directives in another order yield a different validator", rep)
+			}
 		}
 	}
 	n += c19FileContents(c, env)
@@ -647,7 +666,7 @@ func c19FileContents(c *vk.Ctx, env *cfgEnv) int {
 			if syntax == "json" {
 				err = caddy.StrictUnmarshalJSON(env.renderJSON(r, wd), v)
 			} else {
-				err = v.UnmarshalCaddyfile(caddyfile.NewTestDispenser(env.renderCaddyfile(r, wd)))
+				err = v.UnmarshalCaddyfile(caddyfile.NewTestDispenser(env.renderCaddyfile(r, wd, 0)))
 			}
 			if err == nil {
 				err = v.Provision(caddy.Context{})
